@@ -31,6 +31,7 @@ from typing import Iterator, Optional, Tuple, Union
 
 import duckdb
 
+from vtlengine import _verif
 from vtlengine.duckdb_transpiler.Transpiler.operators import register_regex_functions
 from vtlengine.Exceptions import RunTimeError
 
@@ -242,13 +243,16 @@ def configured_connection(database: str = ":memory:") -> Iterator[duckdb.DuckDBP
 
     conn = create_configured_connection(database)
     conn.execute(f"SET temp_directory = '{session_dir}'")
+    _verif.event("session_open", dir=str(session_dir), database=database)
     try:
         yield conn
     finally:
         try:
             conn.close()
+            _verif.event("session_conn_closed")
         finally:
             shutil.rmtree(session_dir, ignore_errors=True)
+            _verif.event("session_close", dir=str(session_dir))
 
 
 def get_system_info() -> dict[str, Union[float, int, str, None]]:
